@@ -36,7 +36,7 @@ std::string runWith(const char* name, const FmmCase& c, const rm::ModelTree& mt,
     std::map<Coord, gf::Val> perLeaf;
     std::string e = fh::checkParticleValues<Dim>(*tree, mt, [&](const Coord& T, long id){
         auto it = perLeaf.find(T);
-        if(it == perLeaf.end()){ gf::Val v = gf::zero(); if(c.height > 2) gf::addPlain(v, ex.local(c.height - 1, T, 2)); gf::addPlain(v, ex.nearField(T, -1)); it = perLeaf.emplace(T, v).first; }
+        if(it == perLeaf.end()){ gf::Val v = gf::zero(); if(c.height > 2) gf::addPlain(v, ex.farAtLeaf(T, 2)); gf::addPlain(v, ex.nearField(T, -1)); it = perLeaf.emplace(T, v).first; }
         gf::Val v = it->second; for(int k = 0 ; k < gf::NEVAL ; ++k) v.v[k] = gf::sub(v.v[k], ctx.P.weight(k, id, 0)); v.cnt -= 1; return v;
     }, nb);
     if(!e.empty()) return std::string(name) + ": " + e;
